@@ -64,6 +64,7 @@ AnyRings == {CloseRing(vs) : vs \in UNION {[1..k -> Verts] : k \in 1..3}} \cup {
 InnerAny == {CloseRing(vs) : vs \in [1..3 -> Inner \X Inner]}
 Quad4 == {CloseRing(vs) : vs \in {w \in [1..4 -> Verts] : w[1] = <<0, 0>> /\ w[3] = <<4, 4>>}}
 
+DegRings == { <<>>, << <<0, 0>> >>, << <<0, 0>>, <<4, 2>> >>, << <<0, 0>>, <<2, 2>>, <<4, 4>>, <<0, 0>> >>, << <<2, 0>>, <<2, 0>>, <<2, 0>>, <<2, 0>> >> }
 Elements ==
     CASE Fam = "point"      -> {<<"point", El(<< << <<v>> >> >>)>> : v \in Verts \cup {<<NaN, NaN>>}} \cup {<<"point", NULL>>}
       [] Fam = "multipoint" -> {<<"multipoint", El(<< <<vs>> >>)>> : vs \in VSeqs(2)} \cup {<<"multipoint", NULL>>}
@@ -86,6 +87,9 @@ Elements ==
                                \cup {<<"polygon", El(<< <<>> >>)>>, <<"polygon", NULL>>}
       [] Fam = "mpoly2"     -> {<<"polygon", El(<< <<s, h>> >>)>> : s \in Shells, h \in InnerAny \cup InnerSquares}
       [] Fam = "mpoly3"     -> {<<"polygon", El(<< <<s, h1, h2>> >>)>> : s \in Shells, h1 \in InnerSquares, h2 \in InnerSquares}
+      [] Fam = "mdegshell"  -> {<<"polygon", El(<< <<d, h>> >>)>> : d \in DegRings, h \in InnerSquares}          \* first ring without area, then rings with area
+                               \cup {<<"polygon", El(<< <<d, h1, h2>> >>)>> : d \in DegRings, h1 \in InnerSquares, h2 \in {h \in InnerSquares : h[1] = <<1, 1>>}}
+                               \cup {<<"multipolygon", El(<< <<s>>, <<d, h>> >>)>> : s \in {t \in Shells : t[1] = <<0, 0>>}, d \in DegRings, h \in {g \in InnerSquares : g[1] = <<1, 1>>}}
       [] Fam = "mmulti"     -> {<<"multipolygon", El(<< <<a>>, <<b>> >>)>> : a \in {r \in AnyRings : Len(r) = 4 /\ r[1] = <<0, 0>>}, b \in AnyRings}
                                \cup {<<"multipolygon", El(<<>>)>>, <<"multipolygon", El(<< <<>> >>)>>, <<"multipolygon", NULL>>}
       [] Fam = "mmulti2"    -> {<<"multipolygon", El(<< <<s, h>>, <<h2>> >>)>> : s \in Shells, h \in InnerSquares, h2 \in InnerSquares}
